@@ -47,6 +47,8 @@ PROFILES = {
                             p_fail_ptfx=0.6, pt_kinds=["AbortSuite", "AbortAllTests", "AbortAllTests", "AbortTest", "exc"],
                             p_use_pt=0.45),
 }
+# "basic" + `detached` acts (`with lcc.detached_step(d): pass` instead of 30 % of the plain step changes)
+PROFILES["basic-detached"] = dict(PROFILES["basic"], p_detached=0.3)
 
 # step descriptions the API accepts like any other: "" (an untitled step: D39, repaired — session.py used to test the
 # description's truth value and never ended such a step), blank, with line breaks, very long
@@ -351,6 +353,11 @@ def _benign_act(rng, cfg, depth, steps, wdepth=0):
             steps[0] += 1
         if rng.random() < cfg.get("p_odd_step", 0.10):
             return {"a": "step", "d": rng.choice(ODD_STEPS)}
+        if cfg.get("p_detached") and rng.random() < cfg["p_detached"]:
+            # `with lcc.detached_step(d): pass` (deprecated, still public): "only does a set_step" — whatever the thread records
+            # next belongs to step d (model: `SessionApi.lower`: entering = set_step(d), leaving = nothing; drivers/Run.lean
+            # decodes the act as `.step d`).  Only profiles that ask for it (the draw is skipped otherwise).
+            return {"a": "detached", "d": "step %d" % steps[0]}
         return {"a": "step", "d": "step %d" % steps[0]}
     if r < 0.75:
         return {"a": "url"}
@@ -811,10 +818,12 @@ def features(project):
             if act_fails(a):
                 kind = a.get("kind") or ("error-log" if a["a"] == "log" else "failed-check")
                 f.add("fail:%s@%s" % (kind, where))
-            if a["a"] in ("attach", "url", "step", "gate"):
+            if a["a"] in ("attach", "url", "step", "gate", "detached"):
                 f.add("act-" + a["a"])
         prev = None
-        for a in sc:
+        for j, a in enumerate(sc):
+            if a["a"] == "detached" and j + 1 < len(sc) and sc[j + 1]["a"] in ("log", "check", "url", "attach", "attachw"):
+                f.add("detached_step+record-right-after")
             if a["a"] == "step":
                 if a["d"] == prev:
                     f.add("step-same-description-again")
